@@ -195,6 +195,17 @@ def run_case(case, ctx):
     obsN = _observe(ctx, case, st1, st2, None)
     obs0 = _observe(ctx, case, st1, st2, 0.0)
     obsO = _observe(ctx, case, st1, st2, "omit")
+    # the coincidences themselves, from the all-pairs definition with the window capped at
+    # the bound (None: not capped) - in the order the bounds were used above, on the same
+    # objects: a bound used earlier must not linger
+    (fa, fb), T0, T1 = ps.fr_trains(case)
+    m_exact = ps.mrts_exact(case)
+    for mt, obs in ((case["mt1"], obs1), (case["mt2"], obs2), (None, obsN)):
+        pairs, ties = O.coincidences(fa, fb, T0, T1, m_exact, Fr(mt) if mt else None)
+        want = set((0, float(fa[i])) for i, _ in pairs) | set((1, float(fb[j])) for _, j in pairs)
+        ctx.check(obs["sync"][0] == want, "coincidences_differ_from_definition",
+                  lambda: "max_tau=%r: SPIKE-Sync marks %r, the definition gives %r (trains %r)"
+                  % (mt, sorted(obs["sync"][0]), sorted(want), tr))
     for name in ("sync", "order", "directionality", "filter"):
         for mt, obs in ((case["mt1"], obs1), (case["mt2"], obs2)):
             for (n, t) in sorted(obs[name][0]):
